@@ -176,6 +176,7 @@ class Check:
         self.assumptions = []
         self.witnesses = {}  # (clause, canon witness) -> record
         self.overflow_examples = {}  # clause -> a collected failing case (used only on overflow)
+        self.nondeterministic = []  # grids whose first shard did not replay identically
         self.notes = []
 
     # -- coverage helpers
@@ -225,6 +226,7 @@ class Check:
                 self.witnesses[(c, canon_json(w))] = {"property": self.prop, "clause": c, "witness": w, "expected": e, "got": g}
             self.cov["exhaustive_attribution"] = False
         new, seen_known = [], {}
+        unreproducible = []
         for k, rec in sorted(self.witnesses.items()):
             # confirm by re-judging the single case (replay determinism, twice)
             r1 = [f for f in mod.judge(rec["witness"]) if f[0] == rec["clause"]]
@@ -232,11 +234,19 @@ class Check:
             if canon_json(r1) != canon_json(r2):
                 raise Harness("non-deterministic replay for %r" % (k,))
             if not r1:
-                raise Harness("witness does not reproduce standalone: %r" % (k,))
+                # fails only after some earlier calls: history dependence, which the H2 (.pure) clauses decide
+                unreproducible.append(k)
+                continue
             if k in known:
                 seen_known.setdefault(known[k], []).append(rec)
             else:
                 new.append(rec)
+        if unreproducible:
+            self.cov["history_dependent_failures_not_replayable_alone"] = len(unreproducible)
+            if not any(r["clause"].endswith(".pure") for r in new):
+                raise Harness("witness does not reproduce standalone and no history (.pure) violation explains it: %r" % (unreproducible[:3],))
+        if self.nondeterministic and not new:
+            raise Harness("non-deterministic evaluation in %s and no violation explains it" % self.nondeterministic)
         for desc in sorted(seen_known):
             print("KNOWN-FINDING: property=%s %s" % (self.prop, desc))
         rdir = os.path.join(VERIF, "replays", self.prop)
@@ -475,3 +485,116 @@ def reduce_failures(chk, failures, simplify, fails, cap=8000):
         if (clause, canon_json(cur)) in chk.witnesses:
             chk.cov["dominated_failures"] += 1
         chk.witness(clause, cur, res[0], res[1])
+
+
+# ----------------------------------------------------------------------------------
+# H2 - histories of calls to "pure" functions: every ordered pair (a, b) of a call universe is run from a reset
+# interpreter state and b's result must equal b's result when it runs alone.  Catches module-level caches keyed
+# too coarsely, mutated defaults, shared scratch buffers.
+
+
+class StateReset:
+    """Snapshot / restore of the module-level mutable state of the library under check (containers that are small
+    at import time - caches start empty - and functools caches)."""
+
+    def __init__(self, prefix="ural"):
+        self.items = []
+        self.caches = []
+        for name, mod in sorted(sys.modules.items()):
+            if mod is None or not (name == prefix or name.startswith(prefix + ".")):
+                continue
+            for k, v in sorted(vars(mod).items(), key=lambda kv: kv[0]):
+                if isinstance(v, (dict, list, set)) and len(v) <= 256:
+                    self.items.append((v, type(v)(v)))
+                elif hasattr(v, "cache_clear") and callable(getattr(v, "cache_clear", None)):
+                    self.caches.append(v)
+                elif isinstance(v, type) or callable(v):
+                    # function attributes / defaults holding containers
+                    d = getattr(v, "__defaults__", None)
+                    if d:
+                        for x in d:
+                            if isinstance(x, (dict, list, set)) and len(x) <= 256:
+                                self.items.append((x, type(x)(x)))
+
+    def reset(self):
+        for live, saved in self.items:
+            if live != saved:
+                live.clear()
+                if isinstance(live, list):
+                    live.extend(saved)
+                else:
+                    live.update(saved)
+        for c in self.caches:
+            c.cache_clear()
+
+
+_H2 = None
+
+
+def _h2_task(task):
+    calls, reset, lo, hi = _H2
+    alone = {}
+    fails, n = [], 0
+    for bi in range(lo, hi):
+        reset.reset()
+        alone[bi] = calls[bi][1]()
+    for bi in range(lo, hi):
+        for ai in range(len(calls)):
+            if ai == bi:
+                continue
+            n += 1
+            reset.reset()
+            calls[ai][1]()
+            got = calls[bi][1]()
+            if got != alone[bi]:
+                fails.append((ai, bi, alone[bi], got))
+    return n, fails
+
+
+def explore_pairs(chk, clause, calls, describe=lambda x: x):
+    """calls: list of (label(JSON-able), thunk -> comparable result).  Every ordered pair is executed."""
+    global _H2
+    reset = StateReset()
+    n = len(calls)
+    step = max(1, n // (NPROC * 3))
+
+    def run(rng):
+        global _H2
+        _H2 = (calls, reset, rng[0], rng[1])
+        return _h2_task(None)
+
+    total, fails = 0, []
+    for k, f in pmap(run, [(lo, min(lo + step, n)) for lo in range(0, n, step)], chk.seed):
+        total += k
+        fails.extend(f)
+    chk.cov["parts"][clause] = {"calls": n, "ordered_pairs": total, "history_dependent": len(fails)}
+    chk.add("states", n)
+    chk.add("transitions", total * 2)
+    chk.add("traces_validated_against_impl", total)
+    chk.add("evaluations", total)
+    chk.clause(clause, checked=total, nontrivial=total, failed=len(fails))
+    fails.sort(key=lambda f: (f[1], f[0]))
+    seen_b = set()
+    for ai, bi, exp, got in fails:
+        if bi in seen_b:  # one witness per affected call: the first (simplest) poisoning predecessor
+            chk.cov["dominated_failures"] += 1
+            continue
+        seen_b.add(bi)
+        chk.witness(clause, {"history": [calls[ai][0], calls[bi][0]]}, {"second call alone": describe(exp)},
+                    {"after the first call": describe(got)})
+    reset.reset()
+
+
+def judge_history(clause, w, thunk_of, describe=lambda x: x):
+    """re-run one two-call history from a reset state"""
+    reset = StateReset()
+    a, b = thunk_of(w["history"][0]), thunk_of(w["history"][1])
+    reset.reset()
+    alone = b()
+    reset.reset()
+    a()
+    got = b()
+    reset.reset()
+    if got != alone:
+        return [(clause, {"second call alone": describe(alone)}, {"after the first call": describe(got)})]
+    return []
